@@ -604,9 +604,13 @@ static void op_rle_rt(const VhLine *l) {
     varintRLEMeta am;
     memset(&am, 0, sizeof(am));
     varintRLEAnalyze(v, n, &am);
-    if (am.count != n || am.runCount != runs || am.encodedSize != exact) {
-        mon("C16", "RLEAnalyze {count %zu runs %zu size %zu} but data has {%zu %zu %zu}", am.count, am.runCount,
-            am.encodedSize, n, runs, exact);
+    {
+        /* ground truth for the analysed size: what the headerless encoder really writes */
+        size_t body = hdr ? len - (n ? (size_t)varintTaggedLen(n) : 1) : len;
+        if (am.count != n || am.runCount != runs || am.encodedSize != body) {
+            mon("C16", "RLEAnalyze {count %zu runs %zu size %zu} but data has {%zu %zu %zu}", am.count, am.runCount,
+                am.encodedSize, n, runs, body);
+        }
     }
     if (n == 0) {
         free(d);
